@@ -269,7 +269,10 @@ func init() {
 	engine.Register(&engine.Property{
 		ID: "C02", Level: "model_checking",
 		Rule:  "E1: (1) adversary-only action menu, invariant 'no browser holds uid=victim' on every reachable state; (2) full-knowledge menu, per-transition rule on first-factor and validate requests; classes = pending/complete/reject kinds hit",
-		Units: func(tier string) []engine.Unit { return e1Units(c02Scenarios(tier)) },
+		Units: func(tier string) []engine.Unit {
+			scs := c02Scenarios(tier)
+			return e1Units(append(scs, configVariants(scs, tier, "faults:login(|-validate(|recover-end(|otplogin(")...))
+		},
 		Assumptions: []string{
 			"adversary model: knows the victim's password, owns accounts A (own TOTP secret / phone / recovery codes / OTPs) and N, controls two browsers, can wait 5/11/31 s; never reads the victim's phone, mailbox, TOTP secret or recovery codes",
 			"bounded depth, 3 accounts, 2 browsers",
